@@ -283,6 +283,7 @@ def fields_rules(body, root_kw=None):
         Rule("B", Seq(Lit("b"), Opt(Lit("b"))), no_skip_ws=True),
         Rule("T", Clo(Choice(Lit("a"), Lit("b")), plus=True), string=True, no_skip_ws=True),
         Rule("D", Choice(Lit("a"), Lit("b")), string=True, no_skip_ws=True),
+        Rule("T2", Seq(Clo(Lit("a"), plus=True), Opt(Seq(Lit("b"), Clo(Lit("a"), plus=True)))), string=True, no_skip_ws=True),
     ]
 
 
@@ -307,6 +308,11 @@ def fam_fields(tier, seed):
         ("same_field_thrice", lambda: Seq(Call("A", "x"), Opt(Call("A", "x")), Call("A", "x"))),
         ("boxed_mixed", lambda: Choice(Call("A", "x", boxed=True), Seq(Call("B", "x"), Call("A", "x")))),
         ("lookahead_then_field", lambda: Seq(Pos(Call("A")), Call("A", "x"), Neg(Call("A")))),
+        ("string_inner_failure", lambda: Seq(Call("T2", "x"), Lit("c"), Opt(Call("D", "y")))),
+        ("seq_tail_rebind_opt", lambda: Seq(Opt(Seq(Call("D", "x"), Lit("c"), Call("T", "y"))), Clo(Seq(Lit("c"), Call("D", "x"), Call("T", "y"))))),
+        ("seq_tail_rebind_group", lambda: Seq(Lit("c"), Choice(Seq(Call("D", "x"), Lit("c"), Call("D", "y")), Seq(Call("D", "y"), Call("D", "x"))),
+                                               Clo(Seq(Lit("c"), Call("D", "y"))))),
+        ("seq_tail_rebind_nested", lambda: Clo(Seq(Lit("c"), Seq(Call("D", "x"), Opt(Call("D", "y"))), Clo(Call("D", "y"))))),
         ("choice_fields_reordered", lambda: Choice(Seq(Lit("c"), Call("D", "x")), Seq(Call("T", "y"), Lit("c")),
                                                    Seq(Call("A", "z"), Call("T", "y"), Call("D", "x")),
                                                    Seq(Call("B", "w"), Call("D", "x"), Call("A", "z")))),
@@ -391,8 +397,13 @@ def fam_ws(tier, seed):
         ("empty_lit", Seq(Lit(""), Lit("a"))),
         ("choice_ws", Choice(Seq(Lit("a"), Lit("a")), Seq(Lit("a"), Lit("b")))),
         ("eoi_only", Eoi()),
+        ("choice_opt_alt", Seq(Lit("a"), Choice(Lit("b"), Opt(Lit("a"))), Opt(Call("N", "n")))),
+        ("choice_empty_alt", Seq(Lit("a"), Choice(Lit("b"), Lit("a"), Seq()), Call("T", "t"))),
+        ("choice_opt_alt_in_string", Seq(Call("V", "v"), Opt(Call("V", "w")))),
+        ("choice_clo_alt", Seq(Lit("a"), Choice(Lit("b"), Clo(Lit("a"))), Eoi())),
     ]
-    extra = [Rule("T", Clo(Range("a", "b"), plus=True), string=True, no_skip_ws=True),
+    extra = [Rule("V", Seq(Lit("a"), Choice(Lit("b"), Opt(Lit("a")))), string=True, position=True),
+             Rule("T", Clo(Range("a", "b"), plus=True), string=True, no_skip_ws=True),
              Rule("U", Clo(Range("a", "b"), plus=True), string=True),
              CharRule("C", [("range", "a", "b")])]
     for bn, body in bodies:
@@ -483,6 +494,12 @@ def memo_bases():
                  Rule("A", Seq(Lit("a"), Lit("a")), no_skip_ws=True),
                  Rule("B", Lit("a"), no_skip_ws=True)],
                 ["a", "x", "b"], ["S", "O", "A", "B"]))
+    out.append(("two_callers",
+                [Rule("S", Choice(Call("P", "p"), Call("Q", "q")), export=True, no_skip_ws=True),
+                 Rule("P", Seq(Lit("<"), Call("M", "m"), Lit(">")), no_skip_ws=True),
+                 Rule("Q", Seq(Lit("<"), Call("M", "m"), Lit(">"))),
+                 Rule("M", Clo(Lit("a"), plus=True), string=True, no_skip_ws=True)],
+                ["<", "a", " ", ">"], ["P", "Q", "M"]))
     out.append(("closure_backtrack",
                 [Rule("S", Choice(Seq(Clo(Seq(Call("I", "i"), Lit(","))), Lit("x"), Eoi()), Seq(Clo(Seq(Call("I", "i"), Lit(","))), Lit("y"), Eoi())),
                       export=True, no_skip_ws=True),
@@ -536,6 +553,10 @@ def fam_memo(tier, seed):
                 g.extra = [list("a" * 7), list("a" * 6 + "b")] if tier == "quick" else [list("a" * 10), list("a" * 9 + "c")]
             else:
                 add_extras(g, random.Random(seed * 7919 + 40 + len(name)), 6 if tier == "quick" else 40, 5, 9)
+            if name == "nested_exp":
+                # more than 20 nested rule calls (linear for every memo subset: the first alternative succeeds)
+                g.real_extra.append(list("a" * 23 + "b" * 23))
+                g.real_extra.append(list("a" * 26 + "b" * 25 + "c"))
             if name in ("memo_in_closure", "failing_prefix", "three_level"):
                 # inputs longer than 256 / 512 bytes: a cache keyed on part of the offset shows only there
                 lr_ = random.Random(seed * 7919 + 41 + len(name))
@@ -671,6 +692,13 @@ def fam_pos(tier, seed):
         Rule("S", Choice(Seq(Call("W", "w"), Lit("x")), Seq(Call("W", "w"), Call("W", "v"))), export=True, position=True),
         Rule("W", Seq(Lit("a"), Opt(Lit("é"))), position=True, memoize=True)], root="S", maxlen=maxlen,
         alpha=["a", "é", " ", "x"], meta={"shape": "memo_replay"}))
+    for memo in (False, True):
+        out.append(Grammar("pos_%04d" % len(out), [
+            Rule("S", Choice(Call("P", "p"), Call("Q", "q")), export=True, no_skip_ws=True, position=True),
+            Rule("P", Seq(Lit("<"), Call("W", "w"), Lit("x")), no_skip_ws=True, position=True),
+            Rule("Q", Seq(Lit("<"), Call("W", "w"), Opt(Call("W", "v"))), position=True),
+            Rule("W", Seq(Lit("a"), Opt(Lit("é"))), position=True, memoize=memo)], root="S", maxlen=maxlen + 1,
+            alpha=["<", "a", "é", " ", "x"], meta={"shape": "two_callers_" + ("memo" if memo else "plain")}))
     out.append(Grammar("pos_%04d" % len(out), [
         Rule("E", Choice(Seq(Call("E", "l", boxed=True), Lit("+"), Call("N", "r")), Call("N", "r")), export=True,
              position=True, leftrec=True),
@@ -786,6 +814,8 @@ def fam_inc(tier, seed):
         Rule("I6", Seq(Lit("a"), Lit("b")), no_skip_ws=True),
         Rule("I7", Seq(Lit("a"), Lit("b")), checks=[{"o": "never", "path": "verif_common::oracles::chk_never",
                                                    "name": "verif_common::oracles::chk_never"}]),
+        Rule("I10", Choice(Inc("I2"), Lit(","), Seq(Lit("("), Call("B", "z"), Lit(")")))),
+        Rule("I11", Inc("I10")),
         Rule("I8", Seq(Call("A", "x"), Clo(Seq(Lit(","), Call("B", "rest")))), string=True),
         Rule("I9", Choice(Seq(Lit("("), Call("I9", "inner", boxed=True), Lit(")")), Call("A", "x"))),
         Rule("Pair", Seq(Call("A", "x"), Lit(","), Call("A", "y")), no_skip_ws=True),
@@ -809,6 +839,8 @@ def fam_inc(tier, seed):
         ("fieldless_in_clo", Seq(Clo(Seq(Inc("I6"), Lit(","))), Clo(Inc("I5")))),
         ("fieldless_in_choice", Choice(Seq(Inc("I6"), Lit(",")), Seq(Inc("I5"), Lit("(")), Inc("I6"))),
         ("fieldless_with_check", Seq(Inc("I7"), Opt(Seq(Lit(","), Inc("I7"))))),
+        ("include_choice_starting_with_include", Seq(Inc("I10"), Opt(Lit(",")), Eoi())),
+        ("include_alias_chain", Seq(Lit("("), Inc("I11"), Opt(Inc("I11")))),
         ("include_string_rule_with_fields", Seq(Inc("I8"), Opt(Seq(Lit("("), Inc("I8"), Lit(")"))))),
         ("include_string_rule_in_clo", Clo(Seq(Lit("("), Inc("I8"), Lit(")")))),
         ("include_boxed_self", Seq(Inc("I9"), Opt(Lit(",")))),
@@ -1484,7 +1516,7 @@ def rand_grammar(rnd, gid, tier):
 
 def fam_rand(tier, seed):
     rnd = random.Random(seed * 7919 + 77)
-    n = 40 if tier == "quick" else 500
+    n = 80 if tier == "quick" else 500
     out = []
     tries = 0
     while len(out) < n and tries < n * 20:
